@@ -276,6 +276,8 @@ pub fn corpus_c15(tier: Tier, seed: u64) -> Vec<(usize, Layout)> {
     p.need_builder = true;
     p.access = AccessMode::AllRW;
     v.extend(sample_choices(seed, 22, n / 2, 320).iter().map(|w| build_layout(&p, w)));
+    // systematic: signed fields (plain, arrays, range lists with a piece one bit narrower than the type)
+    v.extend(crate::corpus::sys_signed(Tier::Quick).into_iter().step_by(tier.pick(4, 1)));
     // systematic: builder steps over very long arrays (const evaluation has its own limits)
     for (b, w, k) in [(128u32, 1u32, 128u32), (127, 1, 127), (128, 4, 32), (128, 2, 64), (64, 1, 64), (125, 1, 125), (126, 3, 42)] {
         let ty = if w == 1 && b % 2 == 0 { FieldTy::Bool } else { crate::corpus::uty(w) };
